@@ -166,23 +166,46 @@ fn scan_dot(cur: &mut Peekable<CharIndices>) -> Result<Token, Error> {
         _ => TokenType::Dot,
     };
 
+    let mut escape = HexEscape::default();
     while let Some(&(offset, c)) = cur.peek() {
         if c == '.' {
             token_type = TokenType::Symbol;
         }
         let check = match token_type {
-            TokenType::Symbol => is_subsequent_identifier(c),
+            TokenType::Symbol => is_subsequent_identifier(c) || escape.closed_by(c),
             TokenType::Number => is_subsequent_number(c),
             _ => false,
         };
         if !check && start != end {
             break;
         }
+        escape.feed(c);
         end = offset + c.len_utf8();
         cur.next();
     }
 
     Ok(Token::new((start, end), token_type))
+}
+
+/// Tracks an inline hex escape (`\x41;`) inside a bare symbol: the only place where a
+/// `;` belongs to an identifier instead of starting a comment.
+#[derive(Default)]
+struct HexEscape {
+    state: u8,
+}
+
+impl HexEscape {
+    fn feed(&mut self, c: char) {
+        self.state = match (self.state, c) {
+            (_, '\\') => 1,
+            (1, 'x') => 2,
+            (2, c) if c.is_ascii_hexdigit() => 2,
+            _ => 0,
+        };
+    }
+    fn closed_by(&self, c: char) -> bool {
+        c == ';' && self.state == 2
+    }
 }
 
 fn scan_simple_token(cur: &mut Peekable<CharIndices>) -> Result<Token, Error> {
@@ -223,10 +246,12 @@ fn scan_hash_token(cur: &mut Peekable<CharIndices>) -> Result<Token, Error> {
 fn scan_symbol(cur: &mut Peekable<CharIndices>) -> Result<Token, Error> {
     let start = cur.peek().unwrap().0;
     let mut end = start;
+    let mut escape = HexEscape::default();
     while let Some(&(offset, c)) = cur.peek() {
-        if !is_subsequent_identifier(c) && start != end {
+        if !(is_subsequent_identifier(c) || escape.closed_by(c)) && start != end {
             break;
         }
+        escape.feed(c);
         end = offset + c.len_utf8();
         cur.next();
     }
@@ -339,7 +364,7 @@ pub fn is_initial_identifier(c: char) -> bool {
 }
 
 pub fn is_special_subsequent(c: char) -> bool {
-    c == '+' || c == '-' || c == '.' || c == '@' || c == ';'
+    c == '+' || c == '-' || c == '.' || c == '@'
 }
 
 pub fn is_subsequent_identifier(c: char) -> bool {
